@@ -158,12 +158,12 @@ func (m *Model) Run(inputs Tensors) (Tensors, error) {
 	}
 
 	tensors := make(Tensors)
-	for inputName, inputTensor := range inputs {
-		tensors[inputName] = inputTensor
-	}
-
 	for parameterName, parameterTensor := range m.parameters {
 		tensors[parameterName] = parameterTensor
+	}
+
+	for inputName, inputTensor := range inputs {
+		tensors[inputName] = inputTensor
 	}
 
 	for _, n := range m.mp.Graph.GetNode() {
